@@ -474,7 +474,7 @@ _Q = uniform_numbers - 0.5
 _D = np.zeros(uniform_numbers.shape)
 _R = np.zeros(uniform_numbers.shape)
 _M1 = __P1
-_R[_M1] = _K1 - _Q[_M1] * _Q[_M1]
+_R[_M1] = __K1 - _Q[_M1] * _Q[_M1]
 _D[_M1] = _Q[_M1] * (((((((_A7 * _R[_M1] + _A6) * _R[_M1] + _A5) * _R[_M1] + _A4) * _R[_M1] + _A3) * _R[_M1] + _A2) * _R[_M1] + _A1) * _R[_M1] + _A0) / (((((((_B7 * _R[_M1] + _B6) * _R[_M1] + _B5) * _R[_M1] + _B4) * _R[_M1] + _B3) * _R[_M1] + _B2) * _R[_M1] + _B1) * _R[_M1] + 1)
 _M2 = __P2
 _M2A = np.logical_and(_M2, _Q < 0.0)
@@ -485,11 +485,11 @@ _M2C = np.logical_and(_M2, _R <= 0)
 _M2D = np.logical_and(_M2, _R > 0)
 _D[_M2C] = 0.0
 _R[_M2D] = np.sqrt(-np.log(_R[_M2D]))
-_M2DA = np.logical_and(_M2D, _R <= _S2)
-_M2DB = np.logical_and(_M2D, _R > _S2)
-_R[_M2DA] = _R[_M2DA] - _K2
+_M2DA = np.logical_and(_M2D, _R <= __TH1)
+_M2DB = np.logical_and(_M2D, _R > __TH2)
+_R[_M2DA] = _R[_M2DA] - __SHIFTC
 _D[_M2DA] = (((((((_C7 * _R[_M2DA] + _C6) * _R[_M2DA] + _C5) * _R[_M2DA] + _C4) * _R[_M2DA] + _C3) * _R[_M2DA] + _C2) * _R[_M2DA] + _C1) * _R[_M2DA] + _C0) / (((((((_D7 * _R[_M2DA] + _D6) * _R[_M2DA] + _D5) * _R[_M2DA] + _D4) * _R[_M2DA] + _D3) * _R[_M2DA] + _D2) * _R[_M2DA] + _D1) * _R[_M2DA] + 1)
-_R[_M2DB] = _R[_M2DB] - _S2
+_R[_M2DB] = _R[_M2DB] - __SHIFTE
 _D[_M2DB] = (((((((_E7 * _R[_M2DB] + _E6) * _R[_M2DB] + _E5) * _R[_M2DB] + _E4) * _R[_M2DB] + _E3) * _R[_M2DB] + _E2) * _R[_M2DB] + _E1) * _R[_M2DB] + _E0) / (((((((_F7 * _R[_M2DB] + _F6) * _R[_M2DB] + _F5) * _R[_M2DB] + _F4) * _R[_M2DB] + _F3) * _R[_M2DB] + _F2) * _R[_M2DB] + _F1) * _R[_M2DB] + 1)
 _D[_M2A] = -_D[_M2A]
 _D.shape = (sample_size, number_of_draws)
@@ -520,7 +520,7 @@ def _as241(ctx: Ctx) -> None:
                 continue
             if isinstance(v, (int, float)) and not isinstance(v, bool):
                 consts[st.targets[0].id] = (float(v), st.lineno)
-    roles = {'_K1': 'const1', '_K2': 'const2', '_S2': 'split2'}
+    roles = {}
     for c in 'ABCDEF':
         for k in range(8):
             if k == 0 and c in 'BDF':
@@ -533,6 +533,27 @@ def _as241(ctx: Ctx) -> None:
         got, line = consts[local]
         ok = got == float(AS241[pub])
         ctx.add('C11.R3', f'AS241.{pub}', ok, (f.file, line), f'{pub} = {got!r}' + ('' if ok else f', published {AS241[pub]!r}'), detail=f'{pub}={got!r}')
+    # the constants of the algorithm that are not coefficients: which published constant stands where
+    def value_of(e):
+        try:
+            return float(const_value(e))
+        except ValueError:
+            c = consts.get(unparse(e))
+            return c[0] if c else None
+
+    for mv, pub, what in (('__K1', 'const1', 'r = const1 - q^2 in the central region'), ('__TH1', 'split2', 'the C/D form is used for r <= split2'), ('__TH2', 'split2', 'the E/F form is used for r > split2'),
+                          ('__SHIFTC', 'const2', 'the C/D form is evaluated at r - const2'), ('__SHIFTE', 'split2', 'the E/F form is evaluated at r - split2')):
+        e = b[mv][1]
+        got = value_of(e)
+        if got is None:
+            raise AnalysisError(f'C11.R3: {unparse(e)} in get_normal_wichura_draws is not a constant')
+        ok = got == float(AS241[pub])
+        ctx.add('C11.R3', f'AS241.{pub}@{mv.strip("_").lower()}', ok, (f.file, e.lineno), f'{what}: {unparse(e)} = {got!r}' + ('' if ok else f'; AS241 has {pub} = {AS241[pub]!r} there'), detail=f'{mv}={got!r}')
+    for pub in ('const1', 'const2', 'split2'):
+        if pub in consts:
+            got = consts[pub][0]
+            ok = got == float(AS241[pub])
+            ctx.add('C11.R3', f'AS241.{pub}', ok, (f.file, consts[pub][1]), f'{pub} = {got!r}' + ('' if ok else f', published {AS241[pub]!r}'), detail=f'{pub}={got!r}')
     Q = b['_Q']
 
     def region(key: str, what: str, want_op: str):
